@@ -43,6 +43,24 @@ the pass in which they complain, and the EXPECT machine of asmerr.c with a count
     Why added: a seeded change that counts one line per fgets() call (LineCount++ moved into the chunk loop) passed
     the check and all 201 golden tests - every generated line was short and every file ended with a line end, so a
     physical line was always exactly one chunk.
+    Phase `multi` (dimension: the `-E targets` of the quantifier over an invocation with SEVERAL sources; spec/DiagPos.tla
+    section "-E targets over ONE invocation with SEVERAL sources", spec/DiagSink_MC.tla, checks/ext_diagsink.py whose
+    docstring has the details): `asl [options] s1 s2 s3` keeps ONE lazily opened handle for the error target over all
+    sources; Sink* operators transcribe the five places of as.c / asmerr.c / stdhandl.c that touch ErrorPath / ErrorName /
+    ErrorFile, TargetOf / HeldDecl say what the manual's sentence on -E means (a source's messages go to ONE place: the
+    named file, the handle !0..!2, <source>.log; a place holds the messages of all sources sent there, in command-line
+    order).  DiagSink_MC enumerates all command lines of 1..3 sources x source shapes (clean / faulty line in the main
+    file / in a shared include file / in a macro body / complaining in pass 2; thorough: + warnings only / nested own
+    include / REPT body / continued lines; quick 155, thorough 657 command lines = every subset and order of faulty
+    sources) x six forms (no -E, !0, !1, !2, -E name, -E alone); checks SourcesPlanted, SinkMatchesDecl,
+    EveryFaultNamedWhereSent, NoForeignInLog; prints per command line x 11 (form, -x, -n, -gnuerrors) combinations the
+    expected messages of every place (err.log, a.log, b.log, c.log, !1, !2).  Each combination is ONE invocation of the
+    real asl with all sources; every place is tokenised and compared with TLC's list for it (quick 1705 invocations,
+    10230 places; thorough 7227 / 43362).
+    Why added: a seeded change (AssembleFile(): `if (!*ErrorPath) CloseIfOpen(&ErrorFile)` lost its `!`) passed: with
+    `-E name` the handle is closed behind every source and re-opened with "w" (the messages of all earlier sources are
+    gone), with `-E` alone it stays open (later sources' messages land in the first faulty source's .log); every run of
+    the check assembled one source, where nothing differs.
 (G) DiagPos_MC, Fixed = {} with Dump: the same jobs are printed with the messages the specification expects under
     6 reporting configurations (-x 0..2, -n, -gnuerrors, -E file / !1 / stderr); each is run through the real asl
     (CPU 68000), the error channel is tokenised into (file, line, construct chain, class, number, include chain)
@@ -60,7 +78,9 @@ them, the replay does not), a backslash at the very end of a file, long lines in
 read by the same ReadLnCont when the body is stored), growth of the line buffer by macro expansion; column numbers and the -x source echo (presence only, they are skipped by the tokeniser), messages of
 the 2000 other error numbers (the position mechanism is common to all), fatal errors, -gnuerrors include chains
 deeper than 3, listing / error-file duplication rules (-L), positions inside STRUCT expansions, the `pos` string of
-corpus `diag` events (only their EXPECT accounting is validated).
+corpus `diag` events (only their EXPECT accounting is validated); several sources: -E !0 (model only, the standard
+input handle cannot be observed), the same source / the same base name twice, wildcard source arguments, -E together
+with -L, fatal errors, targets that cannot be created.
 
 Mutations of /repo tried (scratch copies): see MUTATIONS at the end of this file.
 """
@@ -72,6 +92,7 @@ from vlib import linelenrender as llr
 from vlib import macrorender as mr
 from vlib.common import CheckError, Phase, log, pmap, subdir
 from vlib.report import Report
+from checks import ext_diagsink
 
 PID = "C20"
 ALLDEVS = ["EmptyBodyPop", "IrpcEmptyOnce", "TokenStraddle", "ShiftExcess", "IrpPosNext", "IrpDoubleCleanup",
@@ -185,18 +206,28 @@ def main(tier):
 
     tasks.append(("mc_reader", _cfg("mc_reader.cfg", 'CONSTANTS Tier = "%s"\nINIT Init\nNEXT Next\nINVARIANTS InvCountsPhysical '
                                     'InvReadsDeclarative InvBufferSane\nCHECK_DEADLOCK FALSE\n' % tier), False))
+    # dimension "-E targets x several sources in one invocation" (checks/ext_diagsink.py): model check + generator in one run
+    tasks.append(("multi", _cfg("multi.cfg", ext_diagsink.cfg_text(tier, repaired_in_repo())), True))
 
     def run(t):
         name, cfg, collect = t
-        return name, tlc.run("LineReader_MC" if name == "mc_reader" else "DiagPos_MC", cfg, workers=2, timeout=2400, mem="6g",
-                             tags=("OUT",), collect=collect)
-    with Phase("TLC: %d runs of DiagPos_MC, 1 of LineReader_MC" % (len(tasks) - 1)):
+        module = {"mc_reader": "LineReader_MC", "multi": ext_diagsink.MODULE}.get(name, "DiagPos_MC")
+        return name, tlc.run(module, cfg, workers=2, timeout=2400, mem="6g", tags=("OUT",), collect=collect)
+    with Phase("TLC: %d runs of DiagPos_MC, 1 of LineReader_MC, 1 of DiagSink_MC" % (len(tasks) - 2)):
         results = dict(pmap(run, tasks, workers=6))
     log("[tlc] " + " ".join("%s=%.0fs" % (n, r.wall) for n, r in results.items()))
     r = tlc.must(results["mc_reader"], "LineReader_MC")
     if r.violation:
         raise CheckError("the line reader of LineReader.tla does not count physical lines: %s" % r.violation[:800])
     rep.model("LineReader_MC", r)
+    r = tlc.must(results["multi"], "DiagSink_MC")
+    if r.violation:
+        raise CheckError("the error-target machine of DiagPos.tla (Sink*) does not do what the declarative side says about -E "
+                         "over several sources: %s" % r.violation[:800])
+    rep.model("DiagSink_MC", r)
+    multi_outs = [o for (t, o) in r.printed if t == "OUT"]
+    if not multi_outs:
+        raise CheckError("DiagSink_MC printed no command line")
     outs = []
     for f in FAMILIES:
         r = tlc.must(results["mc_" + f], "DiagPos_MC(%s, Fixed=all)" % f)
@@ -279,6 +310,7 @@ def main(tier):
         rep.sample({"tag": o["tag"], "opts": opts, "source": src, "expected_by_TLC": run_["want"]})
     rep.traces(len(meta))
     rep.part("linelen", **shaped)
+    ext_diagsink.replay(rep, bld, multi_outs, ALLDEVS)
     if shaped["programs"] and not shaped["chunked"]:
         raise CheckError("no program of family linelen has a physical line that arrives in more than one fgets() chunk")
 
@@ -338,9 +370,11 @@ def replay(path):
         if fn.startswith("src_"):
             src[fn[4:]] = open(os.path.join(path, fn), "rb").read().decode("latin-1")      # line ends as recorded
     opts = v.get("case", {}).get("opts") or ["-q", "-cpu", DIALECT]
-    res = aslrun.assemble(bld, src, opts=opts, want=["err.log"])
-    log("rc=%s sig=%s\nstdout:\n%s\nstderr:\n%s\nerr.log:\n%s" % (res.rc, res.sig, res.out, res.err,
-                                                                 res.files.get("err.log", b"").decode("latin-1")))
+    main = v.get("case", {}).get("main") or "a.asm"          # phase multi: all sources of the command line
+    res = aslrun.assemble(bld, src, main=main, opts=opts, want=["err.log"] + ext_diagsink.FILES)
+    log("rc=%s sig=%s\nstdout:\n%s\nstderr:\n%s" % (res.rc, res.sig, res.out, res.err))
+    for f in sorted(res.files):
+        log("%s:\n%s" % (f, res.files[f].decode("latin-1")))
     log("recorded: %s" % v["what"])
     return 0
 
@@ -373,6 +407,13 @@ loop; every generated line was short and every file ended with a line end) - spe
   LineCount-- when a ^Z is stripped                                       -> VIOLATION (linelen: ^Z behind the last line;
       first run missed it: a LONE ^Z line ends the file and nothing is said after it - file end `zonline` added)
   an LF that arrives as a chunk of its own counts as a further line       -> VIOLATION (linelen: lengths Fit+1)
+Fifth round (seed missed: as.c AssembleFile() closes the error handle per source iff ErrorPath is NOT empty - the `!`
+dropped; only invocations with >= 2 sources and a -E target that is a real file show it) - Sink* machine + declarative
+-E meaning in DiagPos.tla, DiagSink_MC, phase `multi` added; on copies of the current /repo, quick tier:
+  `if (*ErrorPath) CloseIfOpen(&ErrorFile)` in AssembleFile (the seed)     -> VIOLATION (multi: 640 invocations, forms -E name and -E)  (ctest 201/201)
+  `if (0)`: the handle is never closed per source                         -> VIOLATION (multi: form -E, later sources in the first log) (ctest 201/201)
+  `if (1)`: the handle is closed behind every source                      -> VIOLATION (multi: form -E name, earlier sources lost)     (ctest 201/201)
+  the same three mutations of the MODEL (SinkFileEnd)                     -> TLC refutes SinkMatchesDecl
 The proposed fix of IRP_GetPos applied: 0 violations, no known finding hit (the as-coded prediction of the model
 equals the real output in all 576 affected runs before the fix, the declarative expectation after it).
 """
